@@ -27,7 +27,7 @@ RULE = (
 )
 ASSUMPTIONS = ["no nested histories and no rename records (the statement's precondition)", "default ignore patterns"]
 BUDGET = {"quick": (220, 4), "thorough": (64000, 16)}
-REQUIRED = ["format_change", "failed_entry", "sf_generation", "pl_ok", "pl_altered", "pl_new_file", "pl_relative_path"]
+REQUIRED = ["format_change", "failed_entry", "sf_generation", "pl_ok", "pl_altered", "pl_new_file", "pl_relative_path", "pattern_early", "pattern_late"]
 
 CFG = {
     "kinds": ["create"] * 5 + ["create_sf"] * 2 + ["put_new", "overwrite", "overwrite", "restore"],
@@ -47,6 +47,20 @@ def _scn(draw):
     if not any(s["op"] in ("create", "create_sf") for s in scn["steps"]):
         scn["steps"].append({"op": "create", "root": "", "formats": draw(gen.formats(2)), "flags": []})
     scn["tail"] = draw(st.sampled_from(["none", "none", "seal_all", "seal_all", "restore_all"]))
+    # a user ignore pattern in the history: from the first generation on (the matching files are never recorded), or only
+    # from a later generation on (they were recorded before and stay part of the summary)
+    scn["pattern"] = draw(st.sampled_from([None, None, None, "early", "late"]))
+    if scn["pattern"] and not ({"zz render.xlog", "zz logs"} & hist.top_names_used(scn)):
+        scn["tree"]["zz render.xlog"] = "a log at the top"
+        scn["tree"]["zz logs"] = {"take 1.xlog": "a log in a folder", "kept.mov": "not a log"}
+        if scn["pattern"] == "early":
+            # (given with the very first, folder-mode generation: the README documents -i / -ii for that form of create)
+            scn["steps"] = [{"op": "create", "root": "", "formats": draw(gen.formats(2)), "flags": [], "extra": ["-i", "*.xlog"]}] + scn["steps"]
+        else:
+            fm = draw(gen.formats(2))
+            scn["steps"] += [{"op": "create", "root": "", "formats": fm, "flags": []}, {"op": "create", "root": "", "formats": fm, "flags": [], "extra": ["-i", "*.xlog"]}]
+    else:
+        scn["pattern"] = None
     scn["alter"] = draw(st.integers(0, 99))
     return scn
 
@@ -125,14 +139,19 @@ def run_case(scn, ctx):
         for p in want:
             require(got[p] == want[p], "digests", "%r: packing list %r, earliest non-failed digests %r" % (p, got[p], want[p]), res)
 
-        # verify -pl against the model
-        files = w.media_files(top)
+        # verify -pl against the model (the packing list carries the history's ignore patterns)
+        if scn.get("pattern"):
+            require("*.xlog" in doc["patterns"], "patterns", "the packing list does not carry the history's ignore pattern: %r" % doc["patterns"], res)
+            if scn["pattern"] == "late":
+                require("zz render.xlog" in got and "zz logs/take 1.xlog" in got, "paths", "files recorded before the pattern was introduced are missing from the summary: %r" % sorted(got)[:8], res)
+            feats.add("pattern_" + scn["pattern"])
+        files = [f for f in w.media_files(top) if not (scn.get("pattern") and f.endswith(".xlog"))]
         rel = lambda f: f[len(top) + 1 :]
         recorded = {top + "/" + p for p in want}
         firsts = {f: data for (h, f), data in w.first.items()}
         A = [f for f in files if f in recorded and w.files[f] != firsts.get(f)]
         N = [f for f in files if f not in recorded]
-        Mi = [f for f in recorded if f not in w.files]
+        Mi = [f for f in recorded if f not in w.files and not (scn.get("pattern") and f.endswith(".xlog"))]
         res = w.verify(top, flags=["-pl", pl])
         require(res.exc is None, "pl-no-abort", res.brief(), res)
         # the same with the packing list (and the root) named relative to a working directory that is not the root
